@@ -972,6 +972,8 @@ def cond_class(info, st):
             all(o['kind'] != 'mem' for o in ops):
         # register-in-opcode forms: objdump prints the REX prefix when some of its bits are unused
         parts.append("unused-rex-bits")
+    if mn in ('loop', 'loope', 'loopne', 'jrcxz', 'jecxz') and 'addr32' in info['prefixes']:
+        parts.append("addr32")
     if mn == 'enter' and len(ops) == 2 and ops[1]['kind'] == 'imm':
         parts.append("nesting-level=0" if (ops[1]['val'] & 31) == 0 else "nesting-level>0")
     if mn == 'cmovcc' and len(ops) == 2 and ops[0]['kind'] == 'reg' and ops[1]['kind'] == 'mem' and \
